@@ -44,6 +44,7 @@ type c13World struct {
 	prot  map[string][]byte
 	a2    *arch
 	a1    *arch1
+	small *c13World // same shape (three files, three recovery blocks) but only three slices: repairable with every file gone
 }
 
 func newC13World(dir string) (*c13World, error) {
@@ -61,6 +62,16 @@ func newC13World(dir string) (*c13World, error) {
 	if w.a1, err = buildArch1(filepath.Join(dir, "w1"), w.names, w.prot, 2, "set"); err != nil {
 		return nil, err
 	}
+	sm := &c13World{names: w.names, prot: map[string][]byte{}, a1: w.a1}
+	for i, n := range sm.names {
+		d := make([]byte, []int{10, 7, 3}[i])
+		rng.Read(d)
+		sm.prot[n] = d
+	}
+	if sm.a2, err = buildArch(filepath.Join(dir, "w2small"), sm.names, sm.prot, 16, 3, 1, "set"); err != nil {
+		return nil, err
+	}
+	w.small = sm
 	return w, nil
 }
 
@@ -486,7 +497,11 @@ func runC13(args []string) error {
 			if cases[i].Fmt == "par1" {
 				ev, err = w.runPar1(dir, cases[i], rng)
 			} else {
-				ev, err = w.runPar2(dir, cases[i], rng)
+				if cases[i].Data == "allgone" && w.small != nil {
+					ev, err = w.small.runPar2(dir, cases[i], rng) // every file gone, yet within capacity
+				} else {
+					ev, err = w.runPar2(dir, cases[i], rng)
+				}
 			}
 			if err != nil {
 				return err
